@@ -34,9 +34,13 @@ P = {
     "C01": ("proof",
             "Theorems (Thm/C01.v, for every environment satisfying EnvOk, every entry point, config, capacity, buffer): the model "
             "never reaches a Fault -- no out-of-bounds advance/slice_skip/peek_ahead/SIMD load, no out-of-fuel (termination), no "
-            "arithmetic overflow in chunk sizes -- Complete(n) has n <= len, the header array keeps its length. PARTIAL: the loads the "
-            "binary really issues are validated by guard-page + debug-assertion runs of the correspondence check (all backends, both "
-            "placements), not by the theorem.",
+            "arithmetic overflow in chunk sizes -- Complete(n) has n <= len, the header array keeps its length. address_level_request/"
+            "response/headers/chunk + address_level_never_faults: the ADDRESS-LEVEL program of each entry point (Bytes::new and every "
+            "Bytes method as translated from iter.rs over checked pointer steps, the entry point and its callees as translated from "
+            "lib.rs, the scanner loop shells as translated from simd/*.rs, composed by Proofs/Lift.v with a soundness proof) yields "
+            "exactly the model's result at every base address, so no checked pointer step of a whole parse leaves the buffer. "
+            "PARTIAL: the loads the binary really issues are validated by guard-page + debug-assertion runs of the correspondence "
+            "check (all backends, both placements), not by the theorem.",
             "Coq proof (refinement to reference parsers => no Fault) + guard-page differential correspondence"),
     "C03": ("proof",
             "Theorems request/response/headers_complete_framed, *_partial_unterminated, chunk_complete_framed, chunk_partial_unterminated "
